@@ -98,6 +98,8 @@ Definition api (opc : Z) (m : M (list Z)) : M unit :=
 Definition new_sock (fd kind : Z) : sock :=
   {| s_fd := fd; s_kind := kind; s_open := true; s_buffered := false; s_rxsize := 0; s_pool := dummy_pool |}.
 
+Definition is_busy (id : Z) (l : list buf) : bool := existsb (fun b => b_id b =? id) l.
+
 Definition capok (reserve cap : Z) : Z := if reserve <=? cap then 1 else 0.
 
 (* ---- operations ------------------------------------------------------------------------------- *)
@@ -112,10 +114,13 @@ Definition run_op (r : raw) : M unit :=
   (* 11 POOL_GET p reserve  -> name size capok *)
   | 11 => api opc (b <- pool_get_m (fun x => owner_pool x a0) (set_owner_pool a0) ;;
                    n <- name_of a0 (b_id b) ;; ret [n; b_size b; capok a1 (b_cap b)])
-  (* 12 BUF_RELEASE name *)
+  (* 12 BUF_RELEASE name : drop the BufferPtr if the user still holds it (no-op otherwise) *)
   | 12 => api opc (oi <- buffer_of_name a0 ;;
-                   pool_recycle_m (fun x => owner_pool x (fst oi)) (set_owner_pool (fst oi)) (snd oi) ;;; ret [])
-  (* 13 BUF_RESIZE name n *)
+                   x <- get_ext ;;
+                   (if is_busy (snd oi) (p_busy (owner_pool x (fst oi)))
+                    then pool_recycle_m (fun x => owner_pool x (fst oi)) (set_owner_pool (fst oi)) (snd oi)
+                    else ret tt) ;;; ret [])
+  (* 13 BUF_RESIZE name n : the user resizes a buffer it holds *)
   | 13 => api opc (oi <- buffer_of_name a0 ;;
                    pool_resize_m (fun x => owner_pool x (fst oi)) (set_owner_pool (fst oi)) (snd oi) a1 ;;; ret [])
   (* 20 TCP_NEW s / 21 UDP_NEW s / 22 ACC_NEW s *)
